@@ -40,4 +40,8 @@ FenInjectiveHere == TRUE
 \* ---- behaviour generation
 Emit == PrintT(<<"POS", ToJson([root |-> root, name |-> ROOTS[root].name, path |-> path, exp |-> Expect(pos)])>>)
 EmitInv == Emit
+\* for the search properties: the position, its colour mirror, its mate-in-one moves
+NoPromoAtRoot == \A m \in Legal(pos) : m.promo = ""
+EmitSearch == PrintT(<<"SPOS", ToJson([fen |-> ToFEN(pos), mirror |-> ToFEN(Mirror(pos)),
+                                         mates |-> SortedSeq(Codes(MateMoves(pos))), nopromo |-> NoPromoAtRoot])>>)
 =============================================================================
